@@ -91,6 +91,10 @@ func unitsAll(prop string, mon Monitor) func(tier string) []runner.Unit {
 			{CW: []int{9000}, SW: []int{9000}, RB: 65536, CTP: "pad0", STP: "le56-L1", NSess: 2, MTU: 1500, Latency: 5 * time.Millisecond},
 			{CW: []int{30000}, SW: []int{10}, RB: 65536, CTP: "nil", STP: "nil", NSess: 1, MTU: 1400, Latency: 300 * time.Millisecond},
 		}
+		// an application that talks to the Mux directly: its own first write (not the socks5
+		// request of apis/client) rides on the open session request
+		faultBases = append(faultBases,
+			Params{CW: []int{600, 900}, SW: []int{700}, RB: 4096, CTP: "nil", STP: "nil", NSess: 1, MTU: 1400, Latency: 5 * time.Millisecond, Raw: true})
 		for bi, base := range faultBases {
 			base := base
 			base.Prop, base.UDP, base.Faults, base.Seed = prop, true, true, int64(100+bi)
